@@ -242,6 +242,33 @@ def wl_cache(rep):
     for r in reads:
         stores = {norm(s.store.targets[0]) for s in ss}
         rep.ob("O7.2", "R1", fi, norm(r.value) in stores, r, "hit and store use the same key expression", node=r)
+    # users of the cache read the stored histogram, they never modify it (an in-place `-=` / update / item store on the returned object
+    # changes what the NEXT query on that graph object sees: the answer would depend on earlier queries)
+    MUT = {"update", "subtract", "clear", "pop", "popitem", "setdefault", "__setitem__", "__delitem__", "__isub__", "__iadd__"}
+    n_users = 0
+    for q_, ufi in rep.repo.module(GM).funcs.items():
+        if ufi.node is fi.node:
+            continue
+        ud = local_defs(ufi.node)
+        holders = {nm for nm, ds in ud.items() for d_ in ds if isinstance(d_.value, ast.Call) and call_name(d_.value) == "_wl_hash_cached"}
+        if not holders:
+            continue
+        n_users += 1
+        rep.touch(ufi)
+        bad = []
+        for n in walk_local(ufi.node):
+            if isinstance(n, ast.AugAssign) and isinstance(n.target, ast.Name) and n.target.id in holders:
+                bad.append((n, "augmented assignment works in place on a Counter"))
+            elif isinstance(n, ast.Call) and isinstance(n.func, ast.Attribute) and isinstance(n.func.value, ast.Name) and n.func.value.id in holders and n.func.attr in MUT:
+                bad.append((n, f".{n.func.attr}() modifies the cached object"))
+            elif isinstance(n, (ast.Assign, ast.AugAssign, ast.Delete)):
+                tgs = n.targets if isinstance(n, (ast.Assign, ast.Delete)) else [n.target]
+                if any(isinstance(t_, ast.Subscript) and isinstance(t_.value, ast.Name) and t_.value.id in holders for t_ in tgs):
+                    bad.append((n, "item store into the cached object"))
+        rep.ob("O7.2", "R1", ufi, not bad, alpha(bad[0][0], ufi.node) if bad else f"{sorted(holders)} read-only", "the cached histogram is only read by its users" +
+               (f" ({bad[0][1]}: a graph object that was once the pattern of a filtered query is later rejected as host of an isomorphic graph)" if bad else ""),
+               node=bad[0][0] if bad else ufi.node)
+    rep.need("R1", n_users, 1, "users of _wl_hash_cached")
     # histogram itself reads only the selected attributes
     wl = rep.f(GM, "_wl1_hash")
     gets = [c for c in walk_local(wl.node, into_nested=True) if isinstance(c, ast.Call) and call_name(c) == "get"]
